@@ -2,6 +2,7 @@ package main
 
 import (
 	"fmt"
+	"os"
 	"go/token"
 	"go/types"
 	"strings"
@@ -169,9 +170,13 @@ func (e *Engine) callFn(fn *ssa.Function, args []Value, free []Value, g *Term, p
 		}
 	}
 	e.funcsSeen[key] = true
+	if e.traceCalls {
+		fmt.Printf("%s-> %s  [terms=%d blocks=%d]\n", strings.Repeat(" ", e.depth), key, nTerms, e.blocksRun)
+	}
 	e.depth++
 	e.active[fn]++
-	defer func() { e.depth--; e.active[fn]-- }()
+	e.stack = append(e.stack, fn.Name())
+	defer func() { e.depth--; e.active[fn]--; e.stack = e.stack[:len(e.stack)-1] }()
 	fr := &frame{e: e, fn: fn, env: map[ssa.Value]Value{}, in: map[*ssa.BasicBlock][]edge{}, lf: e.forest(fn), free: free}
 	if len(args) != len(fn.Params) {
 		abort("arity mismatch calling %s: %d args for %d params", key, len(args), len(fn.Params))
@@ -302,25 +307,37 @@ func (fr *frame) builtin(bi *ssa.Builtin, cc *ssa.CallCommon, args []Value, g *T
 func (fr *frame) doAppend(cc *ssa.CallCommon, args []Value, g *Term, pos token.Pos) Value {
 	base := args[0].(SliceV)
 	st := cc.Args[0].Type().Underlying().(*types.Slice)
-	// normalise the appended elements to a list of (value) with count term
+	return fr.appendAny(base, st.Elem(), args[1], g, pos)
+}
+
+// appendAny appends a slice or string value to base.
+func (fr *frame) appendAny(base SliceV, et types.Type, add Value, g *Term, pos token.Pos) Value {
 	var addN *Term
 	var elems func(j int) Value
 	maxAdd := 0
-	switch a := args[1].(type) {
+	switch a := add.(type) {
 	case SliceV:
 		addN = sliceLen(a)
 		maxAdd = fr.lenBound(a)
-		elems = func(j int) Value { return fr.sliceElem(a, BV(IntW, uint64(j)), g, pos) }
+		vals := make([]Value, maxAdd)
+		for j := range vals {
+			vals[j] = fr.sliceElem(a, BV(IntW, uint64(j)), g, pos)
+		}
+		elems = func(j int) Value { return vals[j] }
 	case StringV:
 		addN = a.n
 		maxAdd = len(a.b)
-		if m, ok := maxConst(a.n); ok && int(m) < maxAdd {
+		if m, ok := maxConst(a.n); ok && m < uint64(maxAdd) {
 			maxAdd = int(m)
 		}
 		elems = func(j int) Value { return a.b[j] }
 	default:
-		abort("append of %T", args[1])
+		abort("append of %T", add)
 	}
+	return fr.appendCore(base, et, addN, maxAdd, elems, g, pos)
+}
+
+func (fr *frame) appendCore(base SliceV, et types.Type, addN *Term, maxAdd int, elems func(j int) Value, g *Term, pos token.Pos) Value {
 	if maxAdd == 0 {
 		return base
 	}
@@ -337,6 +354,18 @@ func (fr *frame) doAppend(cc *ssa.CallCommon, args []Value, g *Term, pos token.P
 			fits = Eq(addN, BV(IntW, 0))
 		}
 		var inPlace, grown Value
+		if fr.e.shadowLog != nil && os.Getenv("VERIF_DEBUG_APPEND") != "" && strings.Contains(fr.e.posStr(pos, nil), os.Getenv("VERIF_DEBUG_APPEND")) {
+			n := -1
+			if al.obj != nil {
+				n = len(al.obj.val.(ArrayV).e)
+			}
+			id := 0
+			if al.obj != nil {
+				id = al.obj.id
+			}
+			fmt.Printf("APPEND at %s: alt obj=%d arrlen=%d g=%d ag=%d off=%d ln=%d cap=%d addN=%d fits=%d\n", fr.e.posStr(pos, nil), id, n,
+				fr.e.shadowEval(al.g), fr.e.shadowEval(ag), fr.e.shadowEval(al.off), fr.e.shadowEval(al.ln), fr.e.shadowEval(al.cap), fr.e.shadowEval(addN), fr.e.shadowEval(fits))
+		}
 		if al.obj != nil && prune(And(ag, fits)) != False {
 			// write in place
 			for j := 0; j < maxAdd; j++ {
@@ -345,12 +374,15 @@ func (fr *frame) doAppend(cc *ssa.CallCommon, args []Value, g *Term, pos token.P
 				if prune(wg) == False {
 					continue
 				}
-				al.obj.val = fr.writePath(al.obj.val, []PathElem{{idx: BinBV("bvadd", al.off, BinBV("bvadd", al.ln, jt))}}, elems(j), wg, pos)
+				if v := elems(j); v != nil {
+					al.obj.val = fr.writePath(al.obj.val, []PathElem{{idx: BinBV("bvadd", al.off, BinBV("bvadd", al.ln, jt))}}, v, wg, pos)
+				}
 			}
 			inPlace = SliceV{alts: []SliceAlt{{g: True, obj: al.obj, off: al.off, ln: newLen, cap: al.cap}}}
 		} else if al.obj == nil {
-			inPlace = SliceV{alts: []SliceAlt{al}}
-			inPlace.(SliceV).alts[0].g = True
+			na := al
+			na.g = True
+			inPlace = SliceV{alts: []SliceAlt{na}}
 		}
 		if prune(And(ag, Not(fits))) != False {
 			oldMax := 0
@@ -364,7 +396,7 @@ func (fr *frame) doAppend(cc *ssa.CallCommon, args []Value, g *Term, pos token.P
 			if nc < 4 {
 				nc = 4
 			}
-			obj := fr.newArray(st.Elem(), nc)
+			obj := fr.newArray(et, nc)
 			arr := obj.val.(ArrayV)
 			for j := 0; j < oldMax; j++ {
 				v := fr.readPath(al.obj.val, []PathElem{{idx: BinBV("bvadd", al.off, BV(IntW, uint64(j)))}}, False, pos)
@@ -375,11 +407,13 @@ func (fr *frame) doAppend(cc *ssa.CallCommon, args []Value, g *Term, pos token.P
 			obj.val = arr
 			for j := 0; j < maxAdd; j++ {
 				jt := BV(IntW, uint64(j))
-				wg := Cmp("bvult", jt, addN)
-				if wg == False {
+				wg := And(ag, Not(fits), Cmp("bvult", jt, addN))
+				if prune(wg) == False {
 					continue
 				}
-				obj.val = fr.writePath(obj.val, []PathElem{{idx: BinBV("bvadd", al.ln, jt)}}, elems(j), wg, pos)
+				if v := elems(j); v != nil {
+					obj.val = fr.writePath(obj.val, []PathElem{{idx: BinBV("bvadd", al.ln, jt)}}, v, wg, pos)
+				}
 			}
 			grown = SliceV{alts: []SliceAlt{{g: True, obj: obj, off: BV(IntW, 0), ln: newLen, cap: BV(IntW, uint64(nc))}}}
 		}
@@ -405,7 +439,7 @@ func (fr *frame) doAppend(cc *ssa.CallCommon, args []Value, g *Term, pos token.P
 
 func (fr *frame) lenBoundAlt(al SliceAlt) int {
 	n := len(al.obj.val.(ArrayV).e)
-	if m, ok := maxConst(al.ln); ok && int(m) < n {
+	if m, ok := maxConst(al.ln); ok && m < uint64(n) {
 		return int(m)
 	}
 	if o, ok := maxConst(al.off); ok && al.off.konst {
